@@ -188,7 +188,9 @@ impl Prop for C17 {
     }
 
     fn generate(r: &mut Rng, tier: Tier, _idx: u64) -> Scn {
-        let o = Opts { request: true, hostile: Hostile::None, fancy_headers: r.chance(1, 3), odd_order: r.chance(1, 3), self_ref: r.chance(1, 4), continuation: false };
+        let odd = r.chance(1, 3);
+        let big = if odd && r.chance(1, 4) { Some(r.urange(16385, 20000)) } else { None };
+        let o = Opts { request: true, hostile: Hostile::None, fancy_headers: r.chance(1, 3), odd_order: odd, self_ref: r.chance(1, 4), continuation: false, big_frame: big, announce_max_frame: r.chance(1, 10) };
         let (stream, structure) = http2::connection_start(r, &o);
         let n = tier.pick(10, 24);
         let chunkings = (0..n).map(|_| gen_cuts(r, stream.len(), &structure)).collect();
@@ -200,7 +202,7 @@ impl Prop for C17 {
         let n = tier.pick(3, 40);
         for h in 0..n {
             let mut r = Rng::new(0xC17_0000 + h as u64);
-            let o = Opts { request: true, hostile: Hostile::None, fancy_headers: false, odd_order: h % 3 == 2, self_ref: false, continuation: false };
+            let o = Opts { request: true, hostile: Hostile::None, fancy_headers: false, odd_order: h % 3 == 2, self_ref: false, continuation: false, big_frame: None, announce_max_frame: false };
             let (stream, structure) = loop {
                 let (s, st) = http2::connection_start(&mut r, &o);
                 if s.len() <= 400 {
